@@ -80,6 +80,17 @@ def base_signer(ci):
     return {"RS256": "op-rsa", "ES256": "op-ec", "HS256": "secret", "none": "unsigned", None: "op-rsa"}[CFGS[ci]["sigalg"]]
 
 
+def corpus():
+    # the policy corners, on every path and setting: unsigned tokens, azp naming another client with a single audience, a nonce of another flow
+    out = []
+    for ci in range(len(CFGS)):
+        for pi in range(len(PATHS)):
+            for m, signer in (({"signer": "unsigned"}, "unsigned"), ({"header_alg": "none-strip"}, base_signer(ci)), ({"azp": "other"}, base_signer(ci)),
+                              ({"azp": "other", "aud": "me-str"}, base_signer(ci)), ({"nonce": "other-flow"}, base_signer(ci))):
+                out.append({"t": "idt", "cfg": ci, "path": pi, "mut": m, "signer": signer})
+    return out
+
+
 def rp_for(ci):
     if ci not in _rps:
         c = CFGS[ci]
